@@ -4,7 +4,7 @@
 From Coq Require Import List NArith ZArith Bool Arith Lia.
 From Muscle Require Import Gen.Consts Refl.Base Refl.BaseProofs Refl.Tree Refl.TreeProofs Refl.Matcher Refl.MatcherProofs
      Refl.Traverse Refl.Session Refl.Server Refl.ServerProofs Refl.Mirror Refl.MirrorCmd Refl.MirrorFrame Refl.MirrorProofs
-     Refl.Params.
+     Refl.MirrorCheck Refl.MirrorStale Refl.Params.
 Import ListNotations.
 
 Section ParamsProofs.
@@ -165,6 +165,127 @@ Proof.
   rewrite <- pworld_step_world. now apply IH.
 Qed.
 
+(* ------------------------------------------------------------------ the state-free tests of MirrorCheck.v, on the wire *)
+
+Lemma lower_cmd_tail : forall c nest ps, tail_cmd (fst (lower_cmd nest ps c)) = tail_cmd c.
+Proof.
+  induction c using cmd_ind'; intros nest ps; try reflexivity.
+  - cbn [lower_cmd]. destruct (lower_unsub ps k); reflexivity.
+  - rewrite lower_batch_eq. destruct (Nat.ltb nest max_batch_nest); [|reflexivity]. cbn [fst tail_cmd].
+    revert ps. induction l as [|c l IH]; intros ps; [reflexivity|].
+    inversion H as [|? ? Hc Hl]; subst. rewrite lower_list_cons. cbn [forallb]. rewrite Hc, (IH Hl). reflexivity.
+Qed.
+
+Lemma lower_cmd_subs_ok_b : forall c nest ps, cmd_subs_ok_b (fst (lower_cmd nest ps c)) = cmd_subs_ok_b c.
+Proof.
+  induction c using cmd_ind'; intros nest ps; try reflexivity.
+  - cbn [lower_cmd]. destruct (lower_unsub ps k); reflexivity.
+  - rewrite lower_batch_eq. destruct (Nat.ltb nest max_batch_nest); [|reflexivity]. cbn [fst cmd_subs_ok_b].
+    revert ps. induction l as [|c l IH]; intros ps; [reflexivity|].
+    inversion H as [|? ? Hc Hl]; subst. rewrite lower_list_cons. cbn [forallb]. rewrite Hc, (IH Hl). reflexivity.
+Qed.
+
+(* is there an unsubscribe in the command?  (the flag of Mirror.client_cmd) *)
+Fixpoint has_unsub (c : cmd) : bool :=
+  match c with
+  | CUnsubscribe _ => true
+  | CBatch l => existsb has_unsub l
+  | _ => false
+  end.
+
+Lemma client_flag : forall c m, snd (client_cmd m c) = has_unsub c.
+Proof.
+  induction c using cmd_ind'; intros m; try reflexivity.
+  cbn [client_cmd has_unsub].
+  assert (Hg : forall l0 acc, Forall (fun c => forall m, snd (client_cmd m c) = has_unsub c) l0 ->
+            snd ((fix go (l : list cmd) (acc : matcher * bool) : matcher * bool :=
+                    match l with
+                    | [] => acc
+                    | c' :: r => let '(m1, u1) := client_cmd (fst acc) c' in go r (m1, snd acc || u1)
+                    end) l0 acc) = snd acc || existsb has_unsub l0).
+  { induction l0 as [|c l0 IH]; intros acc HF; [cbn; now rewrite orb_false_r|].
+    inversion HF as [|? ? Hc HF']; subst. cbn [existsb].
+    pose proof (Hc (fst acc)) as Hs. destruct (client_cmd (fst acc) c) as [m1 u1]. cbn [snd] in Hs. subst u1.
+    rewrite IH by auto. cbn [snd]. now rewrite orb_assoc. }
+  rewrite Hg by auto. reflexivity.
+Qed.
+
+Lemma lower_cmd_has_unsub : forall c nest ps, has_unsub (fst (lower_cmd nest ps c)) = has_unsub c.
+Proof.
+  induction c using cmd_ind'; intros nest ps; try reflexivity.
+  - cbn [lower_cmd]. destruct (lower_unsub ps k); reflexivity.
+  - rewrite lower_batch_eq. destruct (Nat.ltb nest max_batch_nest); [|reflexivity]. cbn [fst has_unsub].
+    revert ps. induction l as [|c l IH]; intros ps; [reflexivity|].
+    inversion H as [|? ? Hc Hl]; subst. rewrite lower_list_cons. cbn [existsb]. rewrite Hc, (IH Hl). reflexivity.
+Qed.
+
+Lemma lower_list_forallb_tail : forall l nest ps, forallb tail_cmd (fst (lower_list nest l ps)) = forallb tail_cmd l.
+Proof.
+  induction l as [|c l IH]; intros nest ps; [reflexivity|]. rewrite lower_list_cons. cbn [forallb]. now rewrite lower_cmd_tail, IH.
+Qed.
+
+Lemma lower_list_drop_plain : forall l nest ps,
+  forallb tail_cmd (drop_b cmd_plain (fst (lower_list nest l ps))) = forallb tail_cmd (drop_b cmd_plain l).
+Proof.
+  induction l as [|c l IH]; intros nest ps; [reflexivity|]. rewrite lower_list_cons. cbn [drop_b]. rewrite lower_cmd_plain.
+  destruct (cmd_plain c); [apply IH|]. cbn [forallb]. now rewrite lower_cmd_tail, lower_list_forallb_tail.
+Qed.
+
+Lemma lower_list_drop_tail : forall l nest ps,
+  forallb tail_cmd (drop_b cmd_plain (drop_b tail_cmd (fst (lower_list nest l ps))))
+  = forallb tail_cmd (drop_b cmd_plain (drop_b tail_cmd l)).
+Proof.
+  induction l as [|c l IH]; intros nest ps; [reflexivity|]. rewrite lower_list_cons. cbn [drop_b]. rewrite lower_cmd_tail.
+  destruct (tail_cmd c); [apply IH|].
+  rewrite <- lower_list_cons. apply lower_list_drop_plain.
+Qed.
+
+Lemma lower_cmd_batch_tail_b : forall c ps, batch_tail_b (fst (lower_cmd 0 ps c)) = batch_tail_b c.
+Proof.
+  intros c ps. destruct c as [| | | | | | |l]; try reflexivity.
+  - cbn [lower_cmd]. destruct (lower_unsub ps subs); reflexivity.
+  - pose proof (lower_cmd_has_unsub (CBatch l) 0 ps) as Hu.
+    rewrite lower_batch_eq in *. destruct (Nat.ltb 0 max_batch_nest); [|reflexivity]. cbn [fst] in *.
+    unfold batch_tail_b. rewrite !client_flag, Hu. f_equal. apply lower_list_drop_tail.
+Qed.
+
+Lemma lower_event_ok_b : forall pw o ev, ev_ok_b o (fst (lower_event pw ev)) = ev_ok_b o ev.
+Proof.
+  intros pw o [s h n|s|s c]; cbn [lower_event].
+  - destruct (get_session (w_srv (pw_world pw)) s); reflexivity.
+  - reflexivity.
+  - destruct (get_session (w_srv (pw_world pw)) s); [|reflexivity].
+    pose proof (lower_cmd_loud c (N.eqb s o) 0 (pt_get (pw_params pw) s)) as H1.
+    pose proof (lower_cmd_depth c 0 (pt_get (pw_params pw) s)) as H2.
+    destruct (lower_cmd 0 (pt_get (pw_params pw) s) c) as [c' ps']. cbn [fst ev_ok_b] in *. now rewrite H1, H2.
+Qed.
+
+Lemma lower_event_clean_b : forall pw o ev, ev_clean_b o (fst (lower_event pw ev)) = ev_clean_b o ev.
+Proof.
+  intros pw o [s h n|s|s c]; cbn [lower_event].
+  - destruct (get_session (w_srv (pw_world pw)) s); reflexivity.
+  - reflexivity.
+  - destruct (get_session (w_srv (pw_world pw)) s); [|reflexivity].
+    pose proof (lower_cmd_plain c 0 (pt_get (pw_params pw) s)) as H1.
+    pose proof (lower_cmd_subs_ok_b c 0 (pt_get (pw_params pw) s)) as H2.
+    pose proof (lower_cmd_batch_tail_b c (pt_get (pw_params pw) s)) as H3.
+    assert (H4 : is_unsub (fst (lower_cmd 0 (pt_get (pw_params pw) s) c)) = is_unsub c).
+    { destruct c; try reflexivity.
+      - cbn [lower_cmd]. destruct (lower_unsub (pt_get (pw_params pw) s) subs); reflexivity.
+      - rewrite lower_batch_eq. destruct (Nat.ltb 0 max_batch_nest); reflexivity. }
+    destruct (lower_cmd 0 (pt_get (pw_params pw) s) c) as [c' ps']. cbn [fst ev_clean_b] in *. now rewrite H1, H2, H3, H4.
+Qed.
+
+(* the state-free tests, made on the events as they are on the wire, imply the conditions on the lowered run *)
+Lemma ok_prun_of_checks : forall o evs pw, forallb (ev_ok_b o) evs = true -> forallb (ev_clean_b o) evs = true ->
+  ok_prun o pw evs.
+Proof.
+  intros o. induction evs as [|ev evs IH]; intros pw H H'; [exact I|]. cbn [forallb] in H, H'.
+  apply andb_true_iff in H as [H1 H2]. apply andb_true_iff in H' as [H3 H4]. cbn [ok_prun].
+  split; [apply ev_ok_b_one; now rewrite lower_event_ok_b|].
+  split; [apply ev_clean_b_one; now rewrite lower_event_clean_b|now apply IH].
+Qed.
+
 (* mirror_converges_partial for histories as they are on the wire: REMOVEPARAMETERS works on parameter names *)
 Theorem mirror_converges_wire : forall evs o,
   wf_prun empty_pworld evs -> ok_prun o empty_pworld evs -> small (run_budget evs) ->
@@ -178,6 +299,31 @@ Proof.
   - apply (wf_prun_lower evs empty_pworld Hwf).
   - apply (ok_prun_lower evs empty_pworld o Hok).
   - now rewrite lower_run_budget.
+Qed.
+
+(* the same with the state-free tests of MirrorCheck.v on the wire events (no explicit GETDATA at all, no quiet flag on a
+   change of the tree by another session) *)
+Corollary mirror_converges_wire_checked : forall evs o,
+  wf_prun empty_pworld evs -> forallb (ev_ok_b o) evs = true -> forallb (ev_clean_b o) evs = true -> small (run_budget evs) ->
+  let w := pw_world (pworld_run fx evs empty_pworld) in
+  forall c ss, In c (w_clients w) -> c_id c = o -> get_session (w_srv w) o = Some ss ->
+  forall q, own_node ss q = false ->
+  mirror_get (c_mirror c) q = expected (sv_tree (w_srv w)) ss q.
+Proof.
+  intros evs o Hwf Hok Hcl Hsm. apply mirror_converges_wire; auto. now apply ok_prun_of_checks.
+Qed.
+
+(* mirror_converges_announced on the wire: the conditions are read off the lowered history (what Server.v executes) *)
+Corollary mirror_converges_wire_announced : forall o evs,
+  let evs' := lower_run fx empty_pworld evs in
+  wf_wrun fx empty_world evs' -> oks_wrun fx o empty_world evs' -> small (run_budget evs') ->
+  let w := pw_world (pworld_run fx evs empty_pworld) in
+  forall c ss, In c (w_clients w) -> c_id c = o -> get_session (w_srv w) o = Some ss ->
+  forall q, own_node ss q = false -> pmem q (stale_run fx o empty_world evs' []) = false ->
+  mirror_get (c_mirror c) q = expected (sv_tree (w_srv w)) ss q.
+Proof.
+  intros o evs evs' Hwf Hok Hsm w. subst w. rewrite pworld_run_lower. cbn [empty_pworld pw_world]. fold evs'.
+  now apply (mirror_converges_announced fx guard_on overlap_on push_on o evs').
 Qed.
 
 End ParamsProofs.
